@@ -56,7 +56,7 @@ def leafTok (s : String) : Option (Bytes × Bytes × Nat) :=
   | [a, b, v] => do pure (← fromHex? a, ← fromHex? b, ← v.toNat?)
   | _ => none
 
-def validKey (k : Bytes) : Bool := (secpParsePub k).isSome
+def validKey (k : Bytes) : Bool := (secpParsePubStrict k).isSome
 
 def crypto : Crypto EC.Point := secpCrypto
 
